@@ -19,6 +19,7 @@ import (
 	"fmt"
 	"io"
 	"math/big"
+	"os"
 	"sync"
 	"testing"
 
@@ -28,7 +29,12 @@ import (
 	"verif/harness/ref"
 )
 
-func TestMain(m *testing.M) { h.Main(m, ref.SelfTestSM3, ref.SelfTestSM2, selfTest) }
+func TestMain(m *testing.M) {
+	// what selects the SM3 / KDF-lane and sm2ec implementation in this process
+	h.Observe("build", buildVariant)
+	h.Observe("GODEBUG", os.Getenv("GODEBUG"))
+	h.Main(m, ref.SelfTestSM3, ref.SelfTestSM2, func() error { return ref.SelfTestSM4(false) }, selfTest)
+}
 
 // ---------------------------------------------------------------- curves
 
@@ -43,6 +49,50 @@ type cv struct {
 }
 
 var cvSM2 = &cv{Name: "sm2", C: ref.SM2, BL: 32, Bits: 256}
+
+// Curves of the library's legacy path (sm2_legacy.go: every key whose curve
+// is not sm2.P256()). The reference curves take their parameters from the Go
+// standard library (not from the library under test); a = p - 3 for all of
+// them. "sm2-generic" is the SM2 curve presented as a plain
+// *elliptic.CurveParams, which the library treats as a custom curve and which
+// lets ref.SM2EncryptParts serve as oracle for the legacy code as well.
+var legacyCVs = func() map[string]*cv {
+	m := map[string]*cv{}
+	add := func(name string, ec elliptic.Curve) {
+		p := ec.Params()
+		m[name] = &cv{Name: name, EC: ec, BL: (p.BitSize + 7) / 8, Bits: p.BitSize,
+			C: &ref.Curve{P: p.P, A: new(big.Int).Sub(p.P, big.NewInt(3)), B: p.B, N: p.N, G: ref.Point{X: p.Gx, Y: p.Gy}}}
+	}
+	add("P-224", elliptic.P224())
+	add("P-256", elliptic.P256())
+	add("P-384", elliptic.P384())
+	add("P-521", elliptic.P521())
+	add("sm2-generic", &elliptic.CurveParams{P: ref.SM2P, N: ref.SM2N, B: ref.SM2B, Gx: ref.SM2Gx, Gy: ref.SM2Gy, BitSize: 256, Name: "sm2p256v1"})
+	return m
+}()
+
+var legacyNames = []string{"P-256", "sm2-generic", "P-521", "P-224", "P-384"}
+
+func cvOf(name string) *cv {
+	if name == "" {
+		return cvSM2
+	}
+	c := legacyCVs[name]
+	if c == nil {
+		panic("unknown curve " + name)
+	}
+	return c
+}
+
+func (c *cv) legacy() bool { return c.EC != nil }
+
+// layouts the path produces and accepts.
+func (c *cv) layouts() []layout {
+	if c.legacy() {
+		return layoutsLegacy
+	}
+	return layouts
+}
 
 func (c *cv) fe(v *big.Int) []byte {
 	b := make([]byte, c.BL)
@@ -130,6 +180,8 @@ var (
 	memoMu  sync.Mutex
 	memoPub = map[string]ref.Point{}
 	memoMul = map[string]ref.Point{}
+	// (curve, d) pairs whose reference public key was compared with crypto/elliptic
+	memoChecked = map[string]bool{}
 )
 
 // refPub returns [d]G on the given curve (pure function, memoised).
@@ -192,6 +244,8 @@ var (
 	layASN1   = layout{ASN1: true}
 	// the five layouts the SM2-curve path produces and accepts
 	layouts = []layout{layUnc132, layUnc123, layCmp132, layCmp123, layASN1}
+	// the legacy path also emits and accepts the hybrid point form
+	layoutsLegacy = []layout{layUnc132, layUnc123, layCmp132, layCmp123, layASN1, {Hybrid: true}, {Hybrid: true, Order: 1}}
 )
 
 func (l layout) String() string {
@@ -411,7 +465,7 @@ func (c *cv) parse(ct []byte, ord int, allowHybrid bool) (*parsed, error) {
 		c2, c3 := split(ct[n:], ord)
 		return &parsed{L: layout{Comp: true, Order: ord}, C1: p, C2: c2, C3: c3}, nil
 	}
-	return nil, fmt.Errorf("first byte %#02x is no ciphertext form", ct[0])
+	return nil, errors.New("first byte is no ciphertext form")
 }
 
 func split(rest []byte, ord int) (c2, c3 []byte) {
@@ -518,9 +572,11 @@ func keyClass(i int, seed uint64) (*big.Int, string) {
 }
 
 // uniformScalar derives a scalar in [1, n-2] from a seed.
-func uniformScalar(seed uint64) *big.Int {
-	v := new(big.Int).SetBytes(gen.Fill(seed, 40))
-	v.Mod(v, new(big.Int).Sub(keyN, big.NewInt(2)))
+func uniformScalar(seed uint64) *big.Int { return uniformScalarN(seed, keyN) }
+
+func uniformScalarN(seed uint64, n *big.Int) *big.Int {
+	v := new(big.Int).SetBytes(gen.Fill(seed, 80))
+	v.Mod(v, new(big.Int).Sub(n, big.NewInt(2)))
 	return v.Add(v, bigOne)
 }
 
@@ -549,6 +605,32 @@ func libKey(d *big.Int) (*sm2.PrivateKey, ref.Point, error) {
 	if priv.X.Cmp(pub.X) != 0 || priv.Y.Cmp(pub.Y) != 0 {
 		return nil, ref.Point{}, fmt.Errorf("public key of d=%x: library (%x,%x), reference (%x,%x)", d, priv.X, priv.Y, pub.X, pub.Y)
 	}
+	return priv, pub, nil
+}
+
+// libKeyFor is libKey for any curve: keys of the legacy path are assembled
+// as the struct literal the API expects for custom curves.
+func libKeyFor(c *cv, d *big.Int) (*sm2.PrivateKey, ref.Point, error) {
+	if !c.legacy() {
+		return libKey(d)
+	}
+	pub := refPub(c, d)
+	key := c.Name + "/" + d.Text(16)
+	memoMu.Lock()
+	seen := memoChecked[key]
+	memoMu.Unlock()
+	if !seen {
+		if x, y := c.EC.ScalarBaseMult(d.Bytes()); x.Cmp(pub.X) != 0 || y.Cmp(pub.Y) != 0 {
+			h.HarnessError("c07: reference curve %s and crypto/elliptic disagree on [d]G", c.Name)
+		}
+		memoMu.Lock()
+		memoChecked[key] = true
+		memoMu.Unlock()
+	}
+	priv := new(sm2.PrivateKey)
+	priv.Curve = c.EC
+	priv.X, priv.Y = new(big.Int).Set(pub.X), new(big.Int).Set(pub.Y)
+	priv.D = new(big.Int).Set(d)
 	return priv, pub, nil
 }
 
@@ -661,6 +743,18 @@ func (o decOpt) matches(l layout) bool {
 		return o.ASN1 || o.Name == "sm2.Decrypt" || o.Name == "priv.Decrypt(nil)" || o.Name == "crypto.Decrypter"
 	}
 	return !o.ASN1 && o.Order == l.Order
+}
+
+// primary reports whether o is PrivateKey.Decrypt with the explicit options
+// for layout l.
+func (o decOpt) primary(l layout) bool {
+	switch {
+	case l.ASN1:
+		return o.Name == "priv.Decrypt(ASN1DecrypterOpts)"
+	case l.Order == 1:
+		return o.Name == "priv.Decrypt(plain c1c2c3)"
+	}
+	return o.Name == "priv.Decrypt(plain c1c3c2)"
 }
 
 // call runs f and converts a panic into a description.
@@ -781,6 +875,19 @@ func selfTest() error {
 	}
 	if _, _, ok := derRead([]byte{4, 0x81, 5, 1, 2, 3, 4, 5}, 4); ok {
 		return errors.New("c07: DER reader accepts a non-minimal length")
+	}
+	// the legacy reference curves (parameters from crypto/elliptic)
+	for _, name := range legacyNames {
+		lc := cvOf(name)
+		if !lc.C.OnCurve(lc.C.G) || !lc.C.BaseMul(lc.C.N).Inf || lc.C.BaseMul(big.NewInt(2)).Inf {
+			return fmt.Errorf("c07: reference curve %s is inconsistent", name)
+		}
+	}
+	// on the SM2 parameters the curve-generic model of the legacy path is the
+	// annex C example again
+	lg := cvOf("sm2-generic")
+	if g2, g3, ok := lg.sealWith(lg.C.Mul(k, lg.C.BaseMul(d)), msg); !ok || !bytes.Equal(g2, c2) || !bytes.Equal(g3, c3) {
+		return errors.New("c07: sm2-generic differs from the annex C example")
 	}
 	return nil
 }
